@@ -402,6 +402,33 @@ class ProcProxyThread(threading.Thread):
         ]
 
     def run(self):
+        """Thread entry point.  Whatever happens to the alias or to its streams,
+        the proc publishes a return code and closes the write ends of its pipes:
+        ``CommandPipeline.iterraw`` loops for as long as any proc's ``poll()``
+        is None and the next stage waits for EOF, so a proxy thread that dies
+        before that point would wedge the pipeline for good.
+        """
+        try:
+            self._run()
+        except BaseException:
+            # e.g. EBADF from opening this stage's stdin: when the last stage
+            # finishes first the pipeline closes the read ends of the earlier
+            # pipes, and this thread may not have opened its end yet
+            try:
+                xt.print_exception(
+                    source_msg="Exception in thread " + get_proc_proxy_name(self)
+                )
+            except Exception:
+                pass
+        finally:
+            if self.returncode is None and self.f is not None:
+                self.returncode = 1
+            spec = getattr(self, "spec", None)
+            for ch in list(getattr(spec, "pipe_channels", ())) + self.pipe_channels:
+                ch.close_writer()
+            self._close_devnull()
+
+    def _run(self):
         """Set up input/output streams and execute the child function in a new
         thread.  This is part of the `threading.Thread` interface and should
         not be called directly.
